@@ -237,15 +237,16 @@ def fam_prank(rnd: random.Random, length: int | None = None, ninputs: int = 4):
             code += [("PUSH", 0), ("PUSH", 0), ("PUSH", 0), ("PUSH", 0), ("PUSH", 0), ("PUSH", EOA), ("PUSH", GAS), "CALL", ("PUSH", 0x1000 + out), "MSTORE"]
             out += 32
         elif op == "create":
+            # runtime: returns (SLOAD(0), SLOAD(1)) = the creator and the origin the constructor saw
+            rt = assemble([("PUSH", 0), "SLOAD", ("PUSH", 0), "MSTORE", ("PUSH", 1), "SLOAD", ("PUSH", 32), "MSTORE", ("PUSH", 64), ("PUSH", 0), "RETURN"])
             init = assemble(["CALLER", ("PUSH", 0), "SSTORE", "ORIGIN", ("PUSH", 1), "SSTORE",
-                             # runtime: returns (SLOAD(0), SLOAD(1))
-                             ("PUSH", 10), ("PUSHL", "rt"), ("PUSH", 0), "CODECOPY", ("PUSH", 10), ("PUSH", 0), "RETURN",
-                             ("MARK", "rt"), ("RAW", assemble([("PUSH", 0), "SLOAD", ("PUSH", 0), "MSTORE", ("PUSH", 32), ("PUSH", 0), "RETURN"]))])
+                             ("PUSH", len(rt)), ("PUSHL", "rt"), ("PUSH", 0), "CODECOPY", ("PUSH", len(rt)), ("PUSH", 0), "RETURN",
+                             ("MARK", "rt"), ("RAW", rt)])
             lab = f"i{len(desc)}_{out}"
             code += [("PUSHN", 2, len(init)), ("PUSHL", lab), ("PUSH", 0x2000), "CODECOPY", ("PUSHN", 2, len(init)), ("PUSH", 0x2000), ("PUSH", 0), "CREATE"]
-            # ask the created contract who created it (its runtime returns SLOAD(0) = the creator it saw)
-            code += [("PUSH", 32), ("PUSH", 0x1000 + out), ("PUSH", 0), ("PUSH", 0), ("PUSH", 0), "DUP6", ("PUSH", GAS), "CALL", "POP", "POP"]
-            out += 32
+            # ask the created contract who created it and under which tx.origin
+            code += [("PUSH", 64), ("PUSH", 0x1000 + out), ("PUSH", 0), ("PUSH", 0), ("PUSH", 0), "DUP6", ("PUSH", GAS), "CALL", "POP", "POP"]
+            out += 64
             code.append(("DATA", lab, init))
         elif op == "cheatcall":
             code += cheat("load(address,bytes32)", [[("PUSH", ECHO)], [("PUSH", 0)]], ret_words=1)
